@@ -84,6 +84,7 @@ var schemas = map[string][]field{
 	"FlushRequest":      {{"NetworkInstance", "NetworkInstance", kind{k: "oneof", s: "FlushNI"}}, {"Override", "Override", kPtr("Unit")}, {"Id", "Id", kPtr("Uint128")}},
 	"OpResult":          {{"ID", "ID", kNat}},
 	"AFTOperation":      {{"Id", "Id", kNat}, {"ElectionId", "ElectionId", kPtr("Uint128")}, {"Op", "Op", kEnum}},
+	"GetRequestG":       {{"NetworkInstance", "NetworkInstance", kind{k: "oneof", s: "GetNI"}}, {"Aft", "Aft", kEnum}},
 	"CandRIB":           {{"Afts", "Afts", kPtr("CandAfts")}},
 	"CandAfts": {{"NextHop", "NextHop", kind{k: "list", s: "CandNH", elemNN: true, keyed: true}}, {"NextHopGroup", "NextHopGroup", kind{k: "list", s: "CandNHG", elemNN: true, keyed: true}},
 		{"Ipv4Entry", "Ipv4Entry", kind{k: "list", s: "CandTop", elemNN: true, keyed: true}}, {"Ipv6Entry", "Ipv6Entry", kind{k: "list", s: "CandTop", elemNN: true, keyed: true}},
@@ -98,7 +99,7 @@ var schemas = map[string][]field{
 
 var leanStruct = map[string]string{
 	"Uint128": "U128", "electionDetails": "ElectionDetails", "clientParams": "ClientParams", "clientState": "ClientState",
-	"SessionParameters": "SessionParameters", "FlushRequest": "FlushRequest", "ModifyRequest": "ModifyRequest", "Unit": "Unit", "OpResult": "OpResult", "AFTOperation": "AFTOperation", "String": "String", "ModifyRequestF": "ModifyRequestF", "gRIBIConnection": "GRIBIConnection", "CandRIB": "CandRIB", "CandAfts": "CandAfts", "CandNH": "CandNH", "CandNHG": "CandNHG", "CandTop": "CandTop",
+	"SessionParameters": "SessionParameters", "FlushRequest": "FlushRequest", "ModifyRequest": "ModifyRequest", "Unit": "Unit", "OpResult": "OpResult", "AFTOperation": "AFTOperation", "String": "String", "ModifyRequestF": "ModifyRequestF", "gRIBIConnection": "GRIBIConnection", "GetRequestG": "GetRequestG", "CandRIB": "CandRIB", "CandAfts": "CandAfts", "CandNH": "CandNH", "CandNHG": "CandNHG", "CandTop": "CandTop",
 }
 
 func leanType(k kind) string {
@@ -126,6 +127,8 @@ func leanType(k kind) string {
 		return "Option " + k.s
 	case "fresp":
 		return "Option FlushResult"
+	case "set":
+		return "List Nat"
 	case "aftresult":
 		return "(Nat × AftSt)"
 	case "list":
@@ -222,6 +225,7 @@ type oneofCase struct {
 
 var oneofs = map[string][]oneofCase{
 	"FlushNI": {{"*spb.FlushRequest_All", "FlushNI.All", nil}, {"*spb.FlushRequest_Name", "FlushNI.Name", []field{{"Name", "Name", kStr}}}},
+	"GetNI":   {{"*spb.GetRequest_All", "GetNI.All", nil}, {"*spb.GetRequest_Name", "GetNI.Name", []field{{"Name", "Name", kStr}}}},
 }
 
 type env struct {
@@ -229,6 +233,8 @@ type env struct {
 	bound   map[string]string // path -> Lean name of the value the pointer points to
 	isNil   map[string]bool
 	effects []string
+	// effBase: a Lean variable holding the effects recorded before (inside a loop); "" = none
+	effBase string
 	scopes  []map[string]*val // names declared in each open block with the binding they shadow
 	// local function literals bound to a name (called only as `return f(args)`, translated inline)
 	closures map[string]*ast.FuncLit
@@ -246,6 +252,7 @@ func (e env) clone() env {
 		n.isNil[k] = v
 	}
 	n.effects = append([]string{}, e.effects...)
+	n.effBase = e.effBase
 	n.closures = map[string]*ast.FuncLit{}
 	for k, v := range e.closures {
 		n.closures[k] = v
@@ -325,6 +332,9 @@ func init() {
 	for _, c := range strings.Fields("UNSET OK NON_ZERO_REFERENCE_REMAIN") {
 		knownCtors["FlushResult."+c] = true
 	}
+	for _, c := range strings.Fields("AFTType_INVALID AFTType_ALL AFTType_IPV4 AFTType_IPV6 AFTType_MPLS AFTType_NEXTHOP AFTType_NEXTHOP_GROUP AFTType_MAC AFTType_POLICY_FORWARDING") {
+		knownCtors[c] = true
+	}
 	for _, c := range strings.Fields("AFTOperation_INVALID AFTOperation_ADD AFTOperation_REPLACE AFTOperation_DELETE") {
 		knownCtors[c] = true
 	}
@@ -378,6 +388,12 @@ func render(e ast.Expr) string {
 		return render(v.Type) + "{}"
 	case *ast.ArrayType:
 		return "[]" + render(v.Elt)
+	case *ast.ChanType:
+		return "chan " + render(v.Value)
+	case *ast.MapType:
+		return "map[" + render(v.Key) + "]" + render(v.Value)
+	case *ast.StructType:
+		return "struct{}"
 	}
 	return fmt.Sprintf("<%T>", e)
 }
@@ -463,7 +479,7 @@ func trExpr(e ast.Expr, en env) val {
 			return x
 		}
 		if id, ok := v.X.(*ast.Ident); ok && id.Name == "spb" {
-			for _, p := range []string{"SessionParameters_", "AFTOperation_"} {
+			for _, p := range []string{"SessionParameters_", "AFTOperation_", "AFTType_"} {
 				if strings.HasPrefix(v.Sel.Name, p) {
 					return val{lean: knownCtor(v.Pos(), v.Sel.Name), kd: kEnum}
 				}
@@ -511,6 +527,10 @@ func trExpr(e ast.Expr, en env) val {
 				els = append(els, trAFTResult(cl, en).lean)
 			}
 			return val{lean: "[" + strings.Join(els, ", ") + "]", kd: kind{k: "list", s: "AFTResult"}}
+		}
+		if mt, ok := v.Type.(*ast.MapType); ok && render(mt.Value) == "bool" && len(v.Elts) == 0 {
+			// map[K]bool used as a set of enumeration values / numbers
+			return val{lean: "[]", kd: kind{k: "set"}}
 		}
 		if at, ok := v.Type.(*ast.ArrayType); ok && render(at.Elt) == "string" {
 			var els []string
@@ -810,6 +830,19 @@ func needsGeneralLoop(list []ast.Stmt) bool {
 				general = true
 			case *ast.BranchStmt:
 				general = true
+			case *ast.CallExpr:
+				if cur != nil {
+					fn := render(x.Fun)
+					o, ok := cur.oracles[fn]
+					if !ok {
+						if sel, isSel := x.Fun.(*ast.SelectorExpr); isSel {
+							o, ok = cur.oracles["*."+sel.Sel.Name]
+						}
+					}
+					if ok && o.effect != "" {
+						general = true
+					}
+				}
 			case *ast.AssignStmt:
 				for _, l := range x.Lhs {
 					if _, ok := l.(*ast.SelectorExpr); ok {
@@ -900,6 +933,14 @@ func trLoop(v *ast.RangeStmt, en env, next cont) string {
 		types = append(types, leanType(x.kd))
 		binders = append(binders, fresh(lastName(k)))
 	}
+	effName := ""
+	if cur != nil && cur.effects {
+		// the effects recorded so far travel through the loop as one more argument
+		effName = fresh("effs")
+		inits = append(inits, atom(effsExpr(e0)))
+		types = append(types, "List Eff")
+		binders = append(binders, effName)
+	}
 	loopIndex++
 	goName := fmt.Sprintf("loop%d", loopIndex)
 	rest := fresh("rest")
@@ -931,6 +972,9 @@ func trLoop(v *ast.RangeStmt, en env, next cont) string {
 	}
 	rebind := func(e env) env {
 		e = bindState(e)
+		if effName != "" {
+			e.effBase, e.effects = effName, nil
+		}
 		for i, k := range state {
 			x := e0.vars[k]
 			if x.kd.k == "ptr" && !x.kd.nn {
@@ -974,6 +1018,9 @@ func trLoop(v *ast.RangeStmt, en env, next cont) string {
 			}
 			_ = i
 			args = append(args, a)
+		}
+		if effName != "" {
+			args = append(args, atom(effsExpr(e)))
 		}
 		ls := takeLets()
 		return wrapLets(ls, "("+goName+" "+rest+" "+strings.Join(args, " ")+")")
@@ -1080,6 +1127,9 @@ func trCall(c *ast.CallExpr, en env) []val {
 	}
 	if fn == "append" && len(c.Args) == 2 {
 		a, b := trExpr(c.Args[0], en), trExpr(c.Args[1], en)
+		if a.kd.k == "list" && a.kd.s == "String" && b.kd.k == "str" {
+			return []val{{lean: "(" + a.lean + " ++ [" + b.lean + "])", kd: a.kd}}
+		}
 		if a.kd.k != "list" || !((a.kd.s == "AFTResult" && b.kd.k == "aftresult") || (b.kd.k == "ptr" && b.kd.s == a.kd.s)) {
 			fail(c.Pos(), "append of %s to %s", b.kd, a.kd)
 		}
@@ -1142,6 +1192,9 @@ func trCall(c *ast.CallExpr, en env) []val {
 		if ok {
 			if o.effect != "" {
 				var args []string
+				if o.args != nil && containsInt(o.args, -1) {
+					args = append(args, atom(trExpr(c.Fun.(*ast.SelectorExpr).X, en).lean))
+				}
 				for i, a := range c.Args {
 					if o.args != nil && !containsInt(o.args, i) {
 						continue
@@ -1245,6 +1298,18 @@ func trCall(c *ast.CallExpr, en env) []val {
 
 // effects recorded while an expression was translated; absorb moves them into an environment
 var oracleEffects []string
+
+// effsExpr: the effects recorded so far as one Lean list expression
+func effsExpr(en env) string {
+	lit := "[" + strings.Join(en.effects, ", ") + "]"
+	switch {
+	case en.effBase == "":
+		return lit
+	case len(en.effects) == 0:
+		return en.effBase
+	}
+	return "(" + en.effBase + " ++ " + lit + ")"
+}
 
 func absorb(en env) env {
 	if len(oracleEffects) == 0 {
@@ -1576,6 +1641,14 @@ func trAssign(a *ast.AssignStmt, en env) env {
 				}
 			}
 			fail(a.Pos(), "assignment to %s, which is neither a declared state field nor a field of a local struct", r)
+		case *ast.IndexExpr:
+			id, ok := lv.X.(*ast.Ident)
+			x, ok2 := en.vars[render(lv.X)]
+			if !ok || !ok2 || x.kd.k != "set" || render(a.Rhs[i]) != "true" {
+				fail(a.Pos(), "assignment to %s", render(l))
+			}
+			k := trExpr(lv.Index, en)
+			en.vars[id.Name] = val{lean: "(" + k.lean + " :: " + x.lean + ")", kd: x.kd}
 		default:
 			fail(a.Pos(), "assignment to %s", render(l))
 		}
@@ -1607,6 +1680,14 @@ func trStmts(list []ast.Stmt, en env, k cont) string {
 		}
 		fail(v.Pos(), "expression statement %s", render(v.X))
 	case *ast.SendStmt:
+		if cur != nil && cur.errChan && render(v.Chan) == "errCh" {
+			// the error is handed to the RPC handler; the function goes on (unless it returns)
+			e := trRetVal(v.Value, "err", en)
+			e1 := absorb(en).clone()
+			e1.effects = append(e1.effects, "(Eff.sendErr "+atom(e)+")")
+			lets := takeLets()
+			return wrapLets(lets, next(e1))
+		}
 		if cur == nil || !cur.loop {
 			fail(v.Pos(), "channel send")
 		}
@@ -1622,7 +1703,7 @@ func trStmts(list []ast.Stmt, en env, k cont) string {
 			e := trRetVal(v.Value, "err", en)
 			e1 := absorb(en)
 			lets := takeLets()
-			return wrapLets(lets, "(LoopOut.term "+atom(e)+" ["+strings.Join(e1.effects, ", ")+"])")
+			return wrapLets(lets, "(LoopOut.term "+atom(e)+" "+effsExpr(e1)+")")
 		case "resultChan":
 			x := trRetVal(v.Value, "mresp", en)
 			e1 := absorb(en).clone()
@@ -1634,6 +1715,12 @@ func trStmts(list []ast.Stmt, en env, k cont) string {
 	case *ast.DeferStmt:
 		if isSkippableCall(v.Call) {
 			return next(en)
+		}
+		if fl, ok := v.Call.Fun.(*ast.FuncLit); ok && cur != nil && cur.errChan && len(fl.Body.List) == 1 {
+			// defer func() { doneCh <- struct{}{} }(): the completion signal, sent on every path
+			if snd, ok := fl.Body.List[0].(*ast.SendStmt); ok && render(snd.Chan) == "doneCh" {
+				return next(en)
+			}
 		}
 		fail(v.Pos(), "defer of %s", render(v.Call.Fun))
 	case *ast.DeclStmt:
@@ -1723,16 +1810,23 @@ func trStmts(list []ast.Stmt, en env, k cont) string {
 	case *ast.TypeSwitchStmt:
 		return trTypeSwitch(v, en, next)
 	case *ast.SwitchStmt:
+		var lets []string
 		if v.Init != nil {
-			fail(v.Pos(), "switch with init")
+			as, ok := v.Init.(*ast.AssignStmt)
+			if !ok {
+				fail(v.Pos(), "switch with a non-assignment init")
+			}
+			en = trAssign(as, en.push())
+			lets = takeLets()
+			inner := next
+			next = func(e env) string { return inner(e.pop()) }
 		}
 		var tag *val
-		var lets []string
 		if v.Tag != nil {
 			t := trExpr(v.Tag, en)
 			en = absorb(en)
 			n := fresh("tag")
-			lets = append(takeLets(), fmt.Sprintf("let %s := %s", n, t.lean))
+			lets = append(append(lets, takeLets()...), fmt.Sprintf("let %s := %s", n, t.lean))
 			tag = &val{lean: n, kd: t.kd}
 		}
 		var clauses []*ast.CaseClause
@@ -1767,9 +1861,14 @@ func trStmts(list []ast.Stmt, en env, k cont) string {
 				hit := func(e3 env) string { return trBlock(cc.Body, e3, next) }
 				miss := func(e3 env) string { return alt(j+1, e3) }
 				if tag != nil {
-					c := trExpr(cc.List[j], e2)
+					// case a, b, c: one body, taken when the tag equals any of the values
+					var eqs []string
+					for _, ce := range cc.List {
+						c := trExpr(ce, e2)
+						eqs = append(eqs, fmt.Sprintf("%s = %s", tag.lean, c.lean))
+					}
 					l2 := takeLets()
-					return wrapLets(l2, fmt.Sprintf("(if (%s = %s) then %s\nelse %s)", tag.lean, c.lean, hit(e2), miss(e2)))
+					return wrapLets(l2, fmt.Sprintf("(if (%s) then %s\nelse %s)", strings.Join(eqs, " ∨ "), hit(e2), chain(i+1, e2)))
 				}
 				return trCond(cc.List[j], e2, hit, miss)
 			}
@@ -2007,9 +2106,12 @@ func trReturn(r *ast.ReturnStmt, en env) string {
 		parts = append(parts, en.vars[st.goExpr].lean)
 	}
 	if cur.effects {
-		parts = append(parts, "["+strings.Join(en.effects, ", ")+"]")
+		parts = append(parts, effsExpr(en))
 	}
 	lets := takeLets()
+	if len(parts) == 0 {
+		fail(r.Pos(), "return of nothing from a function without state or effects")
+	}
 	out := parts[0]
 	if len(parts) > 1 {
 		out = "(" + strings.Join(parts, ", ") + ")"
@@ -2186,7 +2288,7 @@ func translate(sp *fnSpec, files map[string]*ast.File, srcs map[string][]byte) (
 	curRetTypes = retTypes
 	body := trStmts(stmts, en, func(e env) string {
 		if sp.loop {
-			return "(LoopOut.cont " + atom(e.vars["gotmsg"].lean) + " [" + strings.Join(e.effects, ", ") + "])"
+			return "(LoopOut.cont " + atom(e.vars["gotmsg"].lean) + " " + effsExpr(e) + ")"
 		}
 		if len(sp.rets) == 0 {
 			return trReturn(&ast.ReturnStmt{}, e)
